@@ -187,15 +187,23 @@ func replScanTokens(conc Conc, e *engine.EngineFacade, keys, vals []string) (map
 // replStableScan returns a scan during which the engine executed no write (its sequence counter did not move), so that the
 // sample is one state of the engine and not a mixture; ok=false if no quiet moment was found.
 func replStableScan(conc Conc, e *engine.EngineFacade, keys, vals []string, tries int) (map[string]string, int, bool) {
+	st, x, _, ok := replStableScanCnt(conc, e, keys, vals, tries)
+	return st, x, ok
+}
+
+// replStableScanCnt also returns the engine's sequence counter of the quiet moment (= entries written into it so far)
+func replStableScanCnt(conc Conc, e *engine.EngineFacade, keys, vals []string, tries int) (map[string]string, int, uint64, bool) {
 	for i := 0; i < tries; i++ {
 		s0 := replEngLastSeq(e)
 		st, x, err := replScanTokens(conc, e, keys, vals)
 		if err == nil && replEngLastSeq(e) == s0 {
-			return st, x, true
+			var cnt uint64
+			fmt.Sscan(s0, &cnt)
+			return st, x, cnt, true
 		}
 		time.Sleep(time.Millisecond)
 	}
-	return nil, 0, false
+	return nil, 0, 0, false
 }
 
 type replStep struct {
@@ -243,16 +251,16 @@ func (d *replDriver) sampleOnce(force bool) (map[string]string, bool) {
 		return nil, false
 	}
 	rep := d.reported(d.repl)
-	st, x, ok := replStableScan(d.conc, d.repl.eng, d.keys, d.vals, 3)
+	st, x, cnt, ok := replStableScanCnt(d.conc, d.repl.eng, d.keys, d.vals, 3)
 	if !ok {
 		return nil, false
 	}
 	d.nsamples++
 	b, _ := json.Marshal(st)
-	sig := fmt.Sprintf("%s/%d/%d", b, x, rep)
+	sig := fmt.Sprintf("%s/%d/%d/%d", b, x, rep, cnt)
 	if sig != d.last || force {
 		d.last = sig
-		d.log.ev(map[string]interface{}{"e": "s", "st": st, "x": x, "rep": rep})
+		d.log.ev(map[string]interface{}{"e": "s", "st": st, "x": x, "rep": rep, "cnt": cnt})
 	}
 	return st, true
 }
